@@ -206,7 +206,14 @@ _struct("LocalStiffPermuted", "structures.local_stiff_permuted.LocalStiffPermute
 _struct("LocalStiffTransformed", "structures.local_stiff_transformed.LocalStiffTransformed", models=TUBE, cost=30)
 _struct("Weight", "structures.weight.Weight", models=TUBE)
 _struct("StructuralCG", "structures.structural_cg.StructuralCG", models=TUBE)
-_struct("CreateRHS", "structures.create_rhs.CreateRHS", models=TUBE,
+def _create_rhs_pre(env, h):
+    # documented exemption: the tiny-load zeroing region |force| < 1e-6; clauses are stated on the branch where the
+    # mask keeps the load (indicator == 0 for "abs(force) < 1e-6")
+    env.indicator_branch = 0
+    env.note("CreateRHS: obligations stated on the branch |force| >= 1e-6 (documented exemption region excluded)")
+
+
+_struct("CreateRHS", "structures.create_rhs.CreateRHS", models=TUBE, pre=_create_rhs_pre,
         ranges=[(r"total_loads", 1.0, 5.0)])
 _struct("Disp", "structures.disp.Disp", models=TUBE)
 _struct("Energy", "structures.energy.Energy", models=TUBE)
@@ -259,3 +266,39 @@ def _reynolds(env):
 @job("deriv.MultiCD", ("C01", "C03"), cfgs=[dict(n_points=1), dict(n_points=3)])
 def _multicd(env, n_points):
     derivative_contract(env, lambda: cls("integration.multipoint_comps.MultiCD")(n_points=n_points))
+
+_surfs("EvalVelMtx", "aerodynamics.eval_mtx.EvalVelMtx", cfgs=MULTI_GP, cost=15,
+       extra_opts=dict(num_eval_points=2, eval_name="coll_pts"), pre=lambda env, h: env.use_helpers("eval_mtx"),
+       ranges=[(r"vectors", -1.5, 1.5)])
+
+from ._generic import implicit_contract
+
+
+@job("deriv.SolveMatrix", ("C01", "C02", "C03", "C05"), cfgs=MULTI[:3])
+def _solve_matrix(env, **cfg):
+    implicit_contract(env, lambda: cls("aerodynamics.solve_matrix.SolveMatrix")(surfaces=two_surfaces(cfg)))
+
+
+@job("deriv.FEM", ("C01", "C02", "C03", "C10"), cfgs=product(NY[:3], SYM_Q, TUBE), cost=10)
+def _fem(env, **cfg):
+    def symmetric_blocks(env, h, ins):
+        # precondition of FEM (postcondition of LocalStiffTransformed, proved by the kchain.* jobs): every 12x12
+        # element block is symmetric
+        k = ins["local_stiff_transformed"]
+        ks = k.copy()
+        for e in range(k.shape[0]):
+            for i in range(12):
+                for j in range(i):
+                    ks[e, i, j] = k[e, j, i]
+        d = dict(ins)
+        d["local_stiff_transformed"] = ks
+        env.assumptions.add("FEM.requires: element blocks of local_stiff_transformed are symmetric (ensured by "
+                            "LocalStiffTransformed, proved in the kchain jobs)")
+        return d
+    implicit_contract(env, lambda: cls("structures.fem.FEM")(surface=surf_of(cfg)), requires=symmetric_blocks)
+
+
+@job("deriv.AtmosComp", ("C01", "C03", "C17"), ranges=[(r"altitude", 1000.0, 40000.0), (r"Mach", 0.2, 0.9)])
+def _atmos(env):
+    env.assumptions.add("scipy Akima1DInterpolator.derivative(1) is the derivative of the interpolant (external contract)")
+    derivative_contract(env, lambda: cls("common.atmos_comp.AtmosComp")(), pre=lambda env, h: env.use_helpers("atmos"))
